@@ -63,6 +63,10 @@ CHECKS = {
         text="Tokenizer.tla states the span contract of next() as an abstract machine (contiguity, progress, sticky Error, raw spans + unread remainder = input after every call, at most one token per input byte). TLC checks the machine and enumerates ALL inputs up to length 4 (quick) / 5 (thorough) over a 16-symbol markup alphabet (and up to 6 over alphabets that spell raw-text elements); the harness tokenises each with the real tokenizer through the public API only, in a helper thread with a timeout, recording type, raw span, remainder and accessor outcomes per call (+ two calls after the first Error); TLC validates each recorded call sequence against the contract. Seeded random longer inputs over markup alphabets and arbitrary bytes go through the same validation.",
         note="Totality/losslessness only: token types, names and attribute values are judged only on the lexeme-structured documents of C03/C15 (zero drift there). Bounded exhaustive lengths; random beyond.",
         ref="DESIGN.md section 6, C16"),
+    "C18": dict(
+        text="Ffi.tla: objects handed to C (request, action, body filter, buffer, header list, string, trusted proxies), the ownership transfer signature of every entry point (creates / consumes, the NULL variants their contracts allow, three release disciplines: library drop, release by the caller with the exact inverse of the allocation, never released) as actions; TLC enumerates all call sequences up to 4 (quick) / 6 (thorough) calls over payload classes. The harness is the C caller: it executes each sequence through the real extern \"C\" symbols in a child process under a recording #[global_allocator], then releases everything still owned. TLC audits on the recorded trace every allocator event (deallocation of a live pointer with exactly its allocation layout, no double free), Quiesce (no allocation of the sequence survives), the ownership ledger, NULL contracts and content relations with the native API (buffer bytes, header multiset, status, log decision, serialisations).",
+        note="78 000 sequences / 470 000 events in the quick tier. Use-after-free reads are not observable in an event trace. Two genuine defects repaired (Buffer::duplicate panic = abort; buffers freed with size != allocation).",
+        ref="DESIGN.md section 6, C18"),
     "C17": dict(
         text="For every (router state, probe request) of the C01 and C02 universes (so also after removals, change-sets and cache warm-ups) the harness records the ids found in trace_request's tree, the priority of get_trace's final route and of get_route; TLC checks set(trace routes) = set(match) — the match itself being judged against Sat — and equal priorities.",
         note="The per-step action trace (TraceAction) part of the property is exercised through the analysis checks (explain) — see C19. Bounded as C01/C02.",
